@@ -399,6 +399,7 @@ impl Station {
             while let Some(pipe) = pipe_rx.recv().await {
                 let reason = p.run_session(pipe).await;
                 sh.push(format!("session {reason}"));
+                p.wait_enabled().await;
             }
         });
         let mut s = Station { shared, handle, peer: None, pipe_tx, tseq: 0, rxbuf: Vec::new(), asm: Vec::new(), asm_dst: 0, _task: task, panicked: false };
@@ -643,6 +644,18 @@ pub fn run(ops: &str, out: &mut dyn Write, mon: &mut dyn Write) {
                     "cut" => {
                         let s = st.as_mut().unwrap();
                         outs = s.cut().await;
+                    }
+                    // the application disables communications (the session ends wherever it is) and enables them
+                    // again: the next session starts on a new connection
+                    "disable" => {
+                        let s = st.as_mut().unwrap();
+                        let _ = s.handle.disable().await;
+                        outs = s.quiesce().await;
+                        s.peer = None;
+                        outs.extend(s.quiesce().await);
+                        let _ = s.handle.enable().await;
+                        s.connect();
+                        outs.extend(s.quiesce().await);
                     }
                     "appiin" => {
                         let s = st.as_mut().unwrap();
